@@ -21,8 +21,8 @@ ELECTRICIDAD, RED, SUMINISTRO, A, 0.500, 2.000, 0.420
 RED1, RED, SUMINISTRO, A, 0.100, 1.100, 0.200
 """
 
-KEXP_VALUES = ["0", "1", "0.25", "0.5", "-0.1", "1.0001", "abc", ""]
-AREA_VALUES = ["2", "100.456", "0.0011", "0.001", "0", "-3", "abc", ""]
+KEXP_VALUES = ["0", "1", "0.25", "0.5", "-0.1", "1.0001", "abc", "", "0.2505", "0.7495"]   # the last two: close to a metadata value, not equal
+AREA_VALUES = ["2", "100.456", "0.0011", "0.001", "0", "-3", "abc", "", "0.002", "2.0005", "100.4565"]   # the last three: within 1e-3 of a metadata value, not equal
 RED_VALUES = [("0.1", "0.9", "0.05"), ("1.5", "0", "0.3"), ("x", "1", "1")]
 RED_META = ["0.2, 0.8, 0.1", "zzz", "0.3, 0.7"]
 
@@ -93,10 +93,10 @@ def gen_configs(rng, count):
         i += 1
         c = {}
         pick = lambda good, bad, st: None if st == "absent" else rng.choice(good if st == "valid" else bad)
-        c["k_cli"] = (rng.choice(KEXP_VALUES) if rng.random() < 0.3 else rng.choice(KEXP_VALUES[:4])) if kc else None
+        c["k_cli"] = (rng.choice(KEXP_VALUES) if rng.random() < 0.4 else rng.choice(KEXP_VALUES[:4])) if kc else None
         c["k_meta"] = pick(["0", "1", "0.25", "0.5", "0.75"], ["-0.1", "1.0001", "abc", "2"], km)
-        c["a_cli"] = (rng.choice(AREA_VALUES) if rng.random() < 0.3 else rng.choice(AREA_VALUES[:3])) if ac else None
-        c["a_meta"] = pick(["2", "100.456", "0.0011", "37.5"], ["0.001", "0", "-3", "abc"], am)
+        c["a_cli"] = (rng.choice(AREA_VALUES) if rng.random() < 0.45 else rng.choice(AREA_VALUES[:3])) if ac else None
+        c["a_meta"] = pick(["2", "100.456", "0.0011", "37.5", "0.0025"], ["0.001", "0", "-3", "abc"], am)
         c["red1_cli"] = rng.choice(RED_VALUES[:2] if rng.random() < 0.85 else RED_VALUES) if rng.random() < 0.35 else None
         c["red1_meta"] = rng.choice(RED_META[:1] if rng.random() < 0.8 else RED_META) if rng.random() < 0.4 else None
         c["red2_cli"] = rng.choice(RED_VALUES[:2]) if rng.random() < 0.25 else None
